@@ -319,6 +319,34 @@ def run(ctx):
     shared.r_durable(ctx, "R15.durable", ("usage",),
                      "a usage record that was written but not committed is lost by a clean "
                      "stop: the retired object ends up with no record")
+    # R15.mood: the classification reads the `mood` column; what a close stores
+    # there is the mood the close command carried
+    ctx.rule("R15.mood", "the value a close stores in the mood column is the `mood` field "
+             "of the close command")
+    from ..events import handler_for as _hf, handler_paths as _hp, is_client_value as _icv
+    nm = 0
+    seen_m = set()
+    for p in _hp(model, _hf(model, "close")):
+        for e, _ in all_events(p, ("sql",)):
+            if e["db"] != "chan" or e["stmt"].kind not in ("update", "insert"):
+                continue
+            v = e["binds"]["set"].get("mood")
+            if v is None or e["site"][:2] in seen_m:
+                continue
+            seen_m.add(e["site"][:2])
+            nm += 1
+            v = plain(v)
+            key = None
+            if v[0] == "sub" and is_const(v[2]):
+                key = v[2][1]
+            elif v[0] == "call" and v[1] == ".get" and len(v[2]) >= 2 and is_const(v[2][1]):
+                key = v[2][1][1]
+            ok = key == "mood" and _icv(v)
+            ctx.ob("R15.mood", construct_of(e) + " [mood]", ok, e,
+                   "" if ok else "the mood column receives %s, not the close command's `mood`: "
+                   "the record of this mailbox is classified by something else than the "
+                   "moods its sides reported" % show(v)[:60])
+    ctx.require("R15.mood", nm, 1, "statements of the close handler that store a mood")
     # R15.table / R15.times
     app = ("obj", "AppNamespace", ("sym",))
     for kind, table in (("mailbox", "mailboxes"), ("nameplate", "nameplates")):
